@@ -617,3 +617,12 @@ Fixpoint session_part (n : N) (k : tkind) (c : creds) (history : list rev) (step
   end.
 Definition x_part_ok (n : N) (x : xcase) : bool :=
   let '(k, c, steps) := x in session_part n k c [] steps.
+
+(* the model of a whole call as far as I/O is concerned: the Request is constructed first
+   (suds.transport.Request(location, ...) in _SoapClient.send, or by the caller of the transport);
+   connections are opened only by the exchange that follows a successful construction *)
+Definition model_url_io (url : list N) (attempted : bool) : ures * N :=
+  match request_url url with
+  | UOk u => (UOk u, if attempted then 1 else 0)      (* at least one connection *)
+  | e => (e, 0)
+  end.
